@@ -70,6 +70,12 @@ def build(seed: int, only=None):
     win = {"fn": "row_number", "args": [], "arrange": [good]}
     add(("window_in_filter", "top"), ["FunctionTypeError"], dict(id=oid, op="filter", src=tid, preds=[{"fn": "greater_than", "args": [win, {"lit": 1}]}]))
     add(("aggregate_in_filter", "nested"), ["FunctionTypeError"], dict(id=oid, op="filter", src=tid, preds=[{"fn": "greater_than", "args": [{"fn": "add", "args": [{"fn": "sum", "args": [good]}, {"lit": 1}]}, {"lit": 1}]}]))
+    # … in *any* of several predicates, not only the last one
+    add(("window_in_filter", "first_of_two"), ["FunctionTypeError"],
+        dict(id=oid, op="filter", src=tid, preds=[{"fn": "greater_than", "args": [win, {"lit": 1}]}, {"fn": "is_not_null", "args": [good]}]))
+    add(("aggregate_in_filter", "first_of_three"), ["FunctionTypeError"],
+        dict(id=oid, op="filter", src=tid, preds=[{"fn": "greater_than", "args": [good, {"fn": "mean", "args": [good]}]}, {"fn": "is_not_null", "args": [good]},
+                                                  {"fn": "greater_equal", "args": [good, {"lit": 0}]}]))
     add(("window_in_summarize", "top"), ["FunctionTypeError"], dict(id=oid, op="summarize", src=tid, cols=[["zz", win]]))
     add(("window_in_summarize", "nested"), ["FunctionTypeError"], dict(id=oid, op="summarize", src=tid, cols=[["zz", {"fn": "add", "args": [{"fn": "sum", "args": [good]}, {"fn": "shift", "args": [good, {"lit": 1}, {"lit": None}], "arrange": [good]}]}]]))
     # 5. nested aggregate / window functions
@@ -139,6 +145,9 @@ def build(seed: int, only=None):
         [dict(id="lft", op="source", table="src_sfx_l"), dict(id="rgt", op="source", table="src_sfx_r"),
          dict(id=oid, op="join", src="lft", right="rgt", on=[{"fn": "equal", "args": [{"col": ["lft", "id"]}, {"col": ["rgt", "rid"]}]}], how="inner", suffix="_x")])
     add(("union_grouped", "left"), ["ValueError"], [gstmt, dict(id="al", op="alias", src=tid), dict(id=oid, op="union", src="grp", right="al")])
+    add(("union_grouped", "right"), ["ValueError"], [gstmt, dict(id="al", op="alias", src=tid), dict(id=oid, op="union", src="al", right="grp")])
+    add(("union_grouped", "both"), ["ValueError"], [gstmt, dict(id="al", op="alias", src=tid), dict(id="grp_r", op="group_by", src="al", cols=[{"col": ["al", name_i]}]),
+                                                    dict(id=oid, op="union", src="grp", right="grp_r")])
     add(("union_different_columns", "verb"), ["ValueError"], [other, dict(id=oid, op="union", src=tid, right="oth")])
     # … also when one side shows every column of the other plus one more
     add(("union_different_columns", "right_superset"), ["ValueError"],
